@@ -123,8 +123,19 @@ inductive IntParse where
   | ok (i : Int) | invalid | unmodelled
   deriving DecidableEq, Repr
 
-/-- `int(s)` on a stripped string: optional sign, ASCII digits.  `_` and non-ASCII
-characters (Unicode digits) are not modelled. -/
+/-- first code points of the non-ASCII runs `0..9` of Unicode decimal digits (what `int()`
+accepts besides ASCII); tied to the running interpreter by T1 (`tables_agree`). -/
+def uniDigitZeros : List Nat :=
+  [1632, 1776, 1984, 2406, 2534, 2662, 2790, 2918, 3046, 3174, 3302, 3430, 3558, 3664, 3792,
+   3872, 4160, 4240, 6112, 6160, 6470, 6608, 6784, 6800, 6992, 7088, 7232, 7248, 42528, 43216,
+   43264, 43472, 43504, 43600, 44016, 65296, 66720, 68912, 69734, 69872, 69942, 70096, 70384,
+   70736, 70864, 71248, 71360, 71472, 71904, 72016, 72784, 73040, 73120, 73552, 92768, 92864,
+   93008, 120782, 120792, 120802, 120812, 120822, 123200, 123632, 124144, 125264, 130032]
+
+def isUniDigit (c : Char) : Bool := uniDigitZeros.any (fun z => z ≤ c.toNat && c.toNat < z + 10)
+
+/-- `int(s)` on a stripped string: optional sign, ASCII digits.  Digit strings with `_` or
+non-ASCII decimal digits are not modelled (`unmodelled`); everything else is a `ValueError`. -/
 def parseIntCore (s : Str) : IntParse :=
   let body := match s with
     | '+' :: r => r
@@ -134,7 +145,7 @@ def parseIntCore (s : Str) : IntParse :=
     (match s with
      | '-' :: _ => .ok (-(valOf body : Int))
      | _ => .ok (valOf body : Int))
-  else if s.any (fun c => c = '_' || 128 ≤ c.toNat) then .unmodelled
+  else if body ≠ [] ∧ body.all (fun c => isDigit c || c = '_' || isUniDigit c) then .unmodelled
   else .invalid
 
 /-- Python `int(s)` (strips whitespace first) -/
@@ -301,12 +312,15 @@ def shadowNames : List Str :=
    "parse_file", "parse_obj", "parse_raw", "schema", "schema_json", "update_forward_refs",
    "validate"].map String.toList
 
-def nameCheck : List Field → Except Err Unit
+def shadowCheck : List Field → Except Err Unit
   | [] => .ok ()
-  | (k, _) :: fs =>
-    if k.head? = some '_' then .error .unsupported
-    else if shadowNames.contains k then .error .shadow
-    else nameCheck fs
+  | (k, _) :: fs => if shadowNames.contains k then .error .shadow else shadowCheck fs
+
+/-- `create_model(**fields)`: a name starting with `_` is not modelled (pydantic drops it with
+a warning, dunder names collide with `create_model`'s own parameters); a name that is an
+attribute of `ParserModel` is a `NameError`. -/
+def nameCheck (fs : List Field) : Except Err Unit :=
+  if fs.any (fun f => f.1.head? == some '_') then .error .unsupported else shadowCheck fs
 
 /-- `ParserModel()` of a created model: every field at its default -/
 def defaultRecord (fs : List Field) : Val := .record (fs.map (fun f => (f.1, f.2.2)))
